@@ -151,6 +151,84 @@ func c14ReturnGuards(fd *ast.FuncDecl) []string {
 	return out
 }
 
+// c14MergeRules lists, for a two-parameter merge function `func f(a, b *T) *T` of the runtime proxy, under which
+// condition each observed field of b is copied into a: "F if <cond on b>" or "F always".  Calls of the form g(a, b)
+// to a function of the same package are followed (two levels), so pulling the copies into a helper keeps the facts.
+func c14MergeRules(e *ext, dir, fn string, fields map[string]bool) []string {
+	var out []string
+	var walk func(fd *ast.FuncDecl, depth int)
+	walk = func(fd *ast.FuncDecl, depth int) {
+		var ps []string
+		for _, f := range fd.Type.Params.List {
+			for _, n := range f.Names {
+				ps = append(ps, n.Name)
+			}
+		}
+		if len(ps) != 2 || fd.Body == nil {
+			e.fail("C14: %s: not a two-parameter merge function", fd.Name.Name)
+			return
+		}
+		a, b := ps[0], ps[1]
+		copyOf := func(st ast.Stmt) string { // a.F = b.F -> F
+			as, ok := st.(*ast.AssignStmt)
+			if !ok || as.Tok != token.ASSIGN || len(as.Lhs) != 1 || len(as.Rhs) != 1 {
+				return ""
+			}
+			l, ok1 := as.Lhs[0].(*ast.SelectorExpr)
+			r, ok2 := as.Rhs[0].(*ast.SelectorExpr)
+			if !ok1 || !ok2 || l.Sel.Name != r.Sel.Name {
+				return ""
+			}
+			li, ok1 := l.X.(*ast.Ident)
+			ri, ok2 := r.X.(*ast.Ident)
+			if !ok1 || !ok2 || li.Name != a || ri.Name != b {
+				return ""
+			}
+			return l.Sel.Name
+		}
+		for _, st := range fd.Body.List {
+			switch x := st.(type) {
+			case *ast.AssignStmt:
+				if f := copyOf(x); f != "" && fields[f] {
+					out = append(out, f+" always")
+				}
+			case *ast.IfStmt:
+				if x.Else != nil || x.Init != nil || len(x.Body.List) != 1 {
+					continue
+				}
+				if f := copyOf(x.Body.List[0]); f != "" && fields[f] {
+					c := types.ExprString(x.Cond)
+					c = strings.ReplaceAll(" "+c, " "+b+".", " b.")
+					c = strings.ReplaceAll(c, "("+b+".", "(b.")
+					out = append(out, f+" if "+strings.TrimSpace(c))
+				}
+			case *ast.ExprStmt:
+				c, ok := x.X.(*ast.CallExpr)
+				if !ok || len(c.Args) != 2 || depth >= 2 {
+					continue
+				}
+				id, ok := c.Fun.(*ast.Ident)
+				a0, ok0 := c.Args[0].(*ast.Ident)
+				a1, ok1 := c.Args[1].(*ast.Ident)
+				if !ok || !ok0 || !ok1 || a0.Name != a || a1.Name != b {
+					continue
+				}
+				if g := e.funcDecl(dir, "", id.Name); g != nil {
+					walk(g, depth+1)
+				}
+			}
+		}
+	}
+	fd := e.funcDecl(dir, "", fn)
+	if fd == nil {
+		e.fail("C14: %s.%s not found", dir, fn)
+		return nil
+	}
+	walk(fd, 0)
+	sort.Strings(out)
+	return out
+}
+
 func init() {
 	extractors["C14"] = func(e *ext) {
 		d := "pkg/koordlet/util/system"
@@ -363,5 +441,11 @@ func init() {
 		}
 		sort.Strings(upd)
 		fmt.Fprintf(&e.out, "def updaters : List String := %s\n", c14LeanList(upd))
+
+		// --- runtime proxy: when a hook answer / a kubelet update request replaces the executor's resources ---
+		cri := "pkg/runtimeproxy/resexecutor/cri"
+		obs := map[string]bool{"CpuPeriod": true, "CpuQuota": true, "CpuShares": true, "MemoryLimitInBytes": true, "CpusetCpus": true, "CpusetMems": true}
+		fmt.Fprintf(&e.out, "def criHookRules : List String := %s\n", c14LeanList(c14MergeRules(e, cri, "updateResource", obs)))
+		fmt.Fprintf(&e.out, "def criUpdateRules : List String := %s\n", c14LeanList(c14MergeRules(e, cri, "updateResourceByUpdateContainerResourceRequest", obs)))
 	}
 }
